@@ -397,7 +397,7 @@ def run_correspondence(rep, tier, seed, pid_filter=None):
     rng = Rng(seed)
     stats, samples = {}, []
     nhist = 400 if tier == "quick" else 12000
-    heaps = [2, 3, 4, 5, 6, 8, 12, 16, 24, 32, 64]
+    heaps = [1, 2, 3, 4, 5, 6, 8, 12, 16, 24, 32, 64]
     total_ops = diverged = sviol = 0
     distinct = set()
     # corpus first
